@@ -71,7 +71,7 @@ def build(case):
             if 'c' in ch:
                 grp.add_subsystem('c%d' % ch['c'], Aff(spec=cspec[ch['c']]))
             else:
-                fill(grp.add_subsystem('g%d' % ch['g'], om.Group()), ch)
+                fill(grp.add_subsystem('g%d' % ch['g'], om.ParallelGroup() if ch.get('par') else om.Group()), ch)
     fill(p.model, case['tree'])
     for c in case['comps']:
         for k, (coef, src) in enumerate(c['terms']):
@@ -92,6 +92,16 @@ def handle(case):
     CALLS.clear()
     p, cp, gp = build(case)
     p.final_setup()
+    if case.get('resetup'):
+        # a complete first round, then setup() again: the order must be established again
+        p.run_model()
+        del TRACE[:]
+        CALLS.clear()
+        p.setup()
+        for c in case['comps']:
+            for k, (coef, v) in enumerate(c['free']):
+                p.set_val(cp[c['id']] + '.f%d' % k, float(v))
+        p.final_setup()
     calls = dict(CALLS)
     groups = groups_preorder(case['tree'])
     reports, sccs_out = [], []
@@ -122,7 +132,7 @@ def handle(case):
         reports.append([True, [list(e) for e in edges], ooo_canon, final])
         sccs_out.append(sccs)
         # oracle (b): subsystems inside a cycle keep their declared relative order
-        if g['auto']:
+        if g['auto'] and not g.get('par'):
             cls = sccs_of(declared, intended)
             for comp in set(cls.values()):
                 if len(comp) > 1:
